@@ -551,11 +551,85 @@ class Normalizer(ast.NodeTransformer):
             return _Subst(mapping).visit(copy.deepcopy(f.body))
         return None
 
+    def _literal_iter(self, it):
+        if isinstance(it, (ast.Tuple, ast.List)):
+            lit = it
+        elif isinstance(it, ast.Name) and self.const_locals and it.id in self.const_locals[-1]:
+            lit = self.const_locals[-1][it.id]
+        elif isinstance(it, ast.Name) and self.func_stack:
+            # a local bound ONCE to a literal tuple / list of call-free expressions over names that are not re-assigned
+            fn = self.func_stack[-1]
+            defs = [a for a in ast.walk(fn) if isinstance(a, ast.Assign) and len(a.targets) == 1
+                    and isinstance(a.targets[0], ast.Name) and a.targets[0].id == it.id]
+            nstores = sum(1 for x in ast.walk(fn) if isinstance(x, ast.Name) and x.id == it.id and isinstance(x.ctx, (ast.Store, ast.Del)))
+            if len(defs) != 1 or nstores != 1 or not isinstance(defs[0].value, (ast.Tuple, ast.List)):
+                return None
+            lit = defs[0].value
+            if any(isinstance(x, (ast.Call, ast.NamedExpr, ast.Lambda, ast.Await, ast.Yield, ast.Starred)) for x in ast.walk(lit)):
+                return None
+            used = {x.id for x in ast.walk(lit) if isinstance(x, ast.Name)}
+            params = {a.arg for a in fn.args.posonlyargs + fn.args.args + fn.args.kwonlyargs}
+            for u in used:
+                n_ = sum(1 for x in ast.walk(fn) if isinstance(x, ast.Name) and x.id == u and isinstance(x.ctx, (ast.Store, ast.Del)))
+                if n_ > (0 if u in params else 1):
+                    return None
+            if 0 < len(lit.elts) <= MAX_ELTS:
+                return lit
+            return None
+        else:
+            return None
+        if 0 < len(lit.elts) <= MAX_ELTS and all(_simple(e) for e in lit.elts):
+            return lit
+        return None
+
     def visit_Call(self, node):
         r_ = self._beta(node)
         if r_ is not None:
             return self.visit(r_)
         self.generic_visit(node)
+        # N25: tuple(E(x) for x in <literal>) / list(..)  ->  the literal (E(a), E(b), ..)
+        if isinstance(node.func, ast.Name) and node.func.id in ('tuple', 'list') and len(node.args) == 1 and not node.keywords \
+                and isinstance(node.args[0], (ast.GeneratorExp, ast.ListComp)) and len(node.args[0].generators) == 1:
+            g = node.args[0].generators[0]
+            lit = self._literal_iter(g.iter)
+            if lit is not None and not g.ifs and not g.is_async \
+                    and not any(isinstance(x, (ast.NamedExpr, ast.Lambda, ast.Yield, ast.Await)) for x in ast.walk(node.args[0].elt)):
+                vals = []
+                for e in lit.elts:
+                    m = {}
+                    if not _bind(g.target, e, m):
+                        vals = None
+                        break
+                    vals.append(_Subst(m).visit(copy.deepcopy(node.args[0].elt)))
+                if vals is not None:
+                    self.count += 1
+                    new = (ast.Tuple if node.func.id == 'tuple' else ast.List)(elts=vals, ctx=ast.Load())
+                    return ast.fix_missing_locations(ast.copy_location(new, node))
+        # N26: next((E(x) for x in <literal> if C(x)), d)  ->  E(a) if C(a) else (E(b) if C(b) else d)
+        if isinstance(node.func, ast.Name) and node.func.id == 'next' and len(node.args) == 2 and not node.keywords \
+                and isinstance(node.args[0], ast.GeneratorExp) and len(node.args[0].generators) == 1:
+            g = node.args[0].generators[0]
+            lit = self._literal_iter(g.iter)
+            if lit is not None and not g.is_async and _simple(node.args[1]) \
+                    and not any(isinstance(x, (ast.NamedExpr, ast.Lambda, ast.Yield, ast.Await, ast.Call))
+                                for x in ast.walk(node.args[0].elt)):
+                res = node.args[1]
+                ok = True
+                for e in reversed(lit.elts):
+                    m = {}
+                    if not _bind(g.target, e, m):
+                        ok = False
+                        break
+                    elt = _Subst(m).visit(copy.deepcopy(node.args[0].elt))
+                    if g.ifs:
+                        tests = [_Subst(m).visit(copy.deepcopy(t)) for t in g.ifs]
+                        tst = tests[0] if len(tests) == 1 else ast.BoolOp(op=ast.And(), values=tests)
+                        res = ast.IfExp(test=tst, body=elt, orelse=res)
+                    else:
+                        res = elt
+                if ok:
+                    self.count += 1
+                    return ast.fix_missing_locations(ast.copy_location(res, node))
         # 'a.b'.split('.') on constants (a table of dotted keys unrolled by N1)
         if isinstance(node.func, ast.Attribute) and node.func.attr == 'split' and isinstance(node.func.value, ast.Constant) \
                 and isinstance(node.func.value.value, str) and len(node.args) == 1 and not node.keywords \
